@@ -46,7 +46,7 @@ ASSUMPTIONS = [
     "generated commands are deterministic functions of declared inputs and dependency outputs (the property's premise)",
 ]
 
-FAMILIES_QUICK = [("edits", 4), ("alias", 3), ("shift", 3), ("tamper", 4), ("dirs", 6), ("swap", 5), ("shared", 5), ("wipe", 3), ("taint", 2), ("disabled", 3), ("nocache", 2)]
+FAMILIES_QUICK = [("edits", 4), ("alias", 3), ("shift", 3), ("tamper", 4), ("dirs", 6), ("swap", 5), ("shared", 5), ("wipe", 3), ("links", 5), ("revert", 6), ("taint", 2), ("disabled", 2), ("nocache", 2)]
 FAMILIES_THOROUGH = [(f, n * 18) for f, n in FAMILIES_QUICK]
 
 
@@ -85,7 +85,7 @@ def run(ctx):
     # --- oracle: real clean build -----------------------------------------------------------------
     n_oracle = n_fail = 0
     for r in recs:
-        deep = set(r["hist"].get("tags", [])) & {"dirs", "swap", "shared", "tamper"}
+        deep = set(r["hist"].get("tags", [])) & {"dirs", "swap", "shared", "tamper", "revert", "disabled", "links"}
         which = "all" if (r["diffs"] or not quick or deep) else "last"
         fails, n = H.clean_oracle(ctx, r["hist"], r["real"], "c01clean", which=which)
         n_oracle += n
@@ -97,6 +97,21 @@ def run(ctx):
                           {"kind": "oracle", "oracle": "real clean build", "history": small, "described": H.describe(small),
                            "build": f["build"], "path": f["path"], "incremental": f["incremental"], "clean": f["clean"]},
                           signature=signature_of(r["hist"]))
+    # --- oracle: a content-addressed blob never changes once written (and, under sha256, is named by its digest) -------------
+    n_audit = 0
+    for r in recs:
+        for i, o in enumerate(x for x in r["real"] if "ok" in x):
+            n_audit += 1
+            if o.get("cas_rewritten") or o.get("cas_misnamed"):
+                n_fail += 1
+                small = H.truncate(r["hist"], i + 1)
+                ctx.violation("a blob of the content-addressed store changed its content after it was written (a later cache hit restores wrong bytes)"
+                              if o.get("cas_rewritten") else "a blob of the content-addressed store is not named by the digest of its content",
+                              {"kind": "oracle", "oracle": "CAS audit after every build", "history": small, "described": H.describe(small),
+                               "build": i, "rewritten": o.get("cas_rewritten"), "misnamed": o.get("cas_misnamed")},
+                              signature="cas-blob-rewritten" if o.get("cas_rewritten") else "cas-blob-misnamed")
+                break
+    ctx.coverage["cas_audits"] = n_audit
     ctx.coverage["oracle_clean_builds"] = n_oracle
     ctx.coverage["oracle_failures"] = n_fail
     # --- correspondence ---------------------------------------------------------------------------
